@@ -146,7 +146,7 @@ def split_shards(path, n, workdir, session_key=None):
             chunk = lines[i * per:(i + 1) * per]
             if not chunk:
                 continue
-            sp = os.path.join(workdir, "shard%02d.ndjson" % i)
+            sp = os.path.join(workdir, "shard%03d.ndjson" % i)
             with open(sp, "w") as f:
                 f.writelines(chunk)
             shards.append((sp, list(range(i * per + 1, i * per + len(chunk) + 1))))
@@ -169,7 +169,7 @@ def split_shards(path, n, workdir, session_key=None):
         for i, b in enumerate(buckets):
             if not b:
                 continue
-            sp = os.path.join(workdir, "shard%02d.ndjson" % i)
+            sp = os.path.join(workdir, "shard%03d.ndjson" % i)
             with open(sp, "w") as f:
                 f.writelines(lines[j] for j in b)
             shards.append((sp, [j + 1 for j in b]))
@@ -181,26 +181,44 @@ END_RE = re.compile(r'^"?TRACE-END (\d+) (\d+)"?$')
 
 
 def tlc_trace(spec_dir, spec, cfg, trace, workdir, timeout=1800, session_key=None, xmx="2g", env_extra=None):
-    """Validate an ndjson trace against a trace specification on NCPU shards.
+    """Validate an ndjson trace against a trace specification.  The trace is split into shards of whole lines
+    (sessions are kept together); at most NCPU TLC instances run at a time; a shard holds at most ~12 MB of JSON.
     Returns dict(rejects=[(global_line, op, [checks])], states, transitions, lines)."""
-    shards = split_shards(trace, NCPU, workdir, session_key)
-    procs = []
-    for i, (sp, gl) in enumerate(shards):
-        meta = os.path.join(workdir, "meta%02d" % i)
+    size = os.path.getsize(trace)
+    nshards = max(NCPU, (size + (12 << 20) - 1) // (12 << 20))
+    shards = split_shards(trace, nshards, workdir, session_key)
+    pending = list(enumerate(shards))
+    running, done = [], []
+
+    def start(i, sp, gl):
+        meta = os.path.join(workdir, "meta%03d" % i)
         shutil.rmtree(meta, ignore_errors=True)
-        cmd = java_cmd("serial", xmx) + ["-workers", "1", "-config", cfg, "-metadir", meta,
-                                          "-noGenerateSpecTE", spec]
+        cmd = java_cmd("serial", xmx) + ["-workers", "1", "-config", cfg, "-metadir", meta, "-noGenerateSpecTE", spec]
         env = dict(os.environ)
         env["TRACE"] = sp
         if env_extra:
             env.update(env_extra)
-        outp = open(os.path.join(workdir, "tlc%02d.out" % i), "w")
-        p = subprocess.Popen(["timeout", str(timeout)] + cmd, cwd=spec_dir, env=env, stdout=outp,
-                             stderr=subprocess.STDOUT)
-        procs.append((p, outp, sp, gl, meta, i))
+        outp = open(os.path.join(workdir, "tlc%03d.out" % i), "w")
+        p = subprocess.Popen(["timeout", str(timeout)] + cmd, cwd=spec_dir, env=env, stdout=outp, stderr=subprocess.STDOUT)
+        return (p, outp, sp, gl, meta, i)
+
+    while pending or running:
+        while pending and len(running) < NCPU:
+            i, (sp, gl) = pending.pop(0)
+            running.append(start(i, sp, gl))
+        still = []
+        for r in running:
+            if r[0].poll() is None:
+                still.append(r)
+            else:
+                done.append(r)
+        running = still
+        if running:
+            time.sleep(0.05)
     rejects, gen, dist, total = [], 0, 0, 0
-    for p, outp, sp, gl, meta, i in procs:
-        rc = p.wait()
+    retried = set()
+    for p, outp, sp, gl, meta, i in done:
+        rc = p.returncode
         outp.close()
         with open(outp.name) as f:
             out = f.read()
@@ -219,6 +237,14 @@ def tlc_trace(spec_dir, spec, cfg, trace, workdir, timeout=1800, session_key=Non
             raise ToolError("TLC timed out on %s (see %s)" % (sp, outp.name))
         ok = "Model checking completed. No error has been found." in out
         if not ok or ended is None or ended[0] != len(gl) or ended[1] != len(shard_rejects):
+            if (sp, "retried") not in retried:
+                # a JVM that died for an external reason (memory pressure) must not look like a verdict: retry once, alone
+                retried.add((sp, "retried"))
+                log("TLC failed on %s (rc=%d); retrying this shard once" % (sp, rc))
+                r2 = start(i, sp, gl)
+                r2[0].wait()
+                done.append(r2)
+                continue
             raise ToolError("TLC did not consume trace shard %s (rc=%d); see %s\n%s" %
                             (sp, rc, outp.name, out[-3000:]))
         g, dd = parse_states(out)
@@ -226,11 +252,14 @@ def tlc_trace(spec_dir, spec, cfg, trace, workdir, timeout=1800, session_key=Non
         dist += dd
         total += len(gl)
         rejects.extend(shard_rejects)
+        if not shard_rejects:
+            os.remove(outp.name)
+            os.remove(sp)
     rejects.sort()
     return dict(rejects=rejects, transitions=gen, states=dist, lines=total)
 
 
-def tlc_mc(spec_dir, spec, cfg, workdir, tag, timeout=3600, workers=None, env_extra=None, xmx="24g",
+def tlc_mc(spec_dir, spec, cfg, workdir, tag, timeout=3600, workers=None, env_extra=None, xmx="16g",
            extra_args=None, coverage=False):
     """Run TLC in model-checking mode.  Returns (rc, output)."""
     meta = os.path.join(workdir, "meta-" + tag)
@@ -432,8 +461,9 @@ def trace_stage(run, name, driver, spec="TraceLib.tla", cfg="TraceLib.cfg", prof
             if c in ignore_checks:
                 continue
             run.fail(dict(stage=name, op=op, check=c, record=rec, line=gl, tags=dig(rec, "in.tags") or []))
+    ignored = sum(1 for (_, _, checks) in res["rejects"] if all(c in ignore_checks for c in checks))
     run.stage(name, kind="trace-validation", driver=driver, spec=spec, events=len(events),
-              rejected=len(res["rejects"]), states=res["states"])
+              rejected=len(res["rejects"]) - ignored, rejected_but_outside_this_property=ignored, states=res["states"])
     return events, res
 
 
@@ -509,6 +539,27 @@ def world_stage(run, name, driver, spec, cfg, extra=None, slim=("id", "policy", 
     else:
         log("more than %d violating systems; the rest of the batch was not explored" % max_rounds)
     run.cov["traces_validated_against_impl"] += len(recs)
+    if run.tier == "thorough":
+        # vacuity guard (guidance: -coverage 1): per-action counts on a prefix of the batch
+        cb = os.path.join(wd, "tlc-batch-coverage.ndjson")
+        with open(cb, "w") as f:
+            for r in recs[:40]:
+                sl = {k: r[k] for k in slim if k in r}
+                if isinstance(sl.get("supply"), dict) and sl["supply"].get("k") == "periodic":
+                    sl["supply"] = dict(sl["supply"], D=sl["supply"]["P"])
+                f.write(json.dumps(sl) + "\n")
+        e = {"BATCH": cb, "TRACKFIN": "1" if witness else "0"}
+        if env:
+            e.update(env)
+        rc, cout = tlc_mc(os.path.join(SPEC, "mc"), spec, cfg, wd, name + "-coverage", timeout=timeout, env_extra=e,
+                          workers=workers, coverage=True)
+        acts = {}
+        for m in re.finditer(r"^<(\w+) line \d+, col \d+ to line \d+, col \d+ of module (\w+)>: (\d+):(\d+)", cout, re.M):
+            acts[m.group(1)] = [int(m.group(3)), int(m.group(4))]
+        never = [a for a, c in acts.items() if c[1] == 0]
+        run.stage(name + "-coverage", kind="action-coverage", systems=min(40, len(recs)), actions=acts)
+        if never:
+            raise ToolError("actions never taken in %s: %s (the property would be vacuous)" % (spec, never))
     if witness:
         # witness(r) = list of alternatives; of each alternative (a set of "id task" keys) one must be witnessed
         nexp = 0
